@@ -273,7 +273,8 @@ let rec jsprint_case_gen ?(top = PrintModel.coq_OpAssign) ?(bytes_out = false) r
     | PrintModel.TLB -> "[" | PrintModel.TRB -> "]" | PrintModel.TDot -> ".") out)
 
 (* ---- Js statement optimiser (Js/StmtModel.v) ---- *)
-let jsstmt_case ?(print = false) ?(readback = false) ?(bytes_out = false) fn sx =
+let lexback_report_hyp = (try Sys.getenv "MV_LEXBACK_HYP" = "1" with Not_found -> false)
+let jsstmt_case ?(print = false) ?(readback = false) ?(bytes_out = false) ?(lexback = false) fn sx =
   let toks = ref (Stdlib.List.filter (fun x -> x <> "") (split ' ' sx)) in
   let next () = match !toks with t :: r -> toks := r; t | [] -> failwith "jsstmt sexpr" in
   let rec pe () =
@@ -313,6 +314,15 @@ let jsstmt_case ?(print = false) ?(readback = false) ?(bytes_out = false) fn sx 
     else match StmtParse.parse_program (StmtPrint.print_list t ef o) with
       | None -> "parse-fails"
       | Some p -> if p = StmtParse.canon_list t ef o then "ok" else "other-tree"
+  end else
+  if lexback then begin
+    (* the statement of Props/C01 function_body_bytes_lex_back_closed evaluated on this case; "hyp" = a hypothesis does not
+       hold (an atom that is not an identifier, a label, ...): the theorem says nothing about the case *)
+    let t = PrintGen.coq_T_gen and ef = nat_of_int 200 in
+    let o = StmtModel.optimize_body t (fn = "1") l in
+    if not (StmtRenderClosed.stmts_okb l && StmtRenderClosed.stmts_fuel_okb t ef o) then (if lexback_report_hyp then "hyp" else "ok")
+    else if StmtRenderProofs.lexs_bytes (StmtRender.render_body t ef (fn = "1") l) = Some (StmtRenderProofs.stok_surfaces (StmtPrint.print_body t ef (fn = "1") l)) then "ok"
+    else "BAD-lex"
   end else
   if bytes_out then hexe (StmtRender.render_body PrintGen.coq_T_gen (nat_of_int 200) (fn = "1") l) else
   if print then begin
@@ -452,6 +462,7 @@ let register (reg : string -> (string list -> string) -> unit) =
                              else if strict_in && StrLitSpec.decode false q' b' = None then "BAD-strict" else "ok"))))
     | _ -> "ok");
   reg "jsstmtr" (function [sx] -> jsstmt_case ~readback:true "1" sx | _ -> "BADARGS");
+  reg "jsstmtlx" (function [sx] -> jsstmt_case ~lexback:true "1" sx | _ -> "BADARGS");
   reg "jsstmtpb" (function [sx] -> jsstmt_case ~bytes_out:true "1" sx | _ -> "BADARGS");
   reg "jsstmtp" (function [sx] -> jsstmt_case ~print:true "1" sx | _ -> "BADARGS");
   reg "jsrw0" (function [sx] -> jsprint_case_gen ~top:PrintModel.coq_OpExpr true sx | _ -> "BADARGS");
